@@ -17,7 +17,7 @@ from ..seams import quiet
 import py4hw
 
 PROP = 'C06'
-TIERS = {'quick': 4500, 'thorough': 40000}
+TIERS = {'quick': 4500, 'thorough': 200000}
 RULE = ('each run: a seeded netlist over the whole catalogue (combinational + sequential, widths 1-70) whose '
         'constants / reset values / sequence values are replaced by negative or oversized integers, poked with '
         'negative / oversized / extreme stimulus; invariant 0 <= v < 2**w and integer type at every observation '
